@@ -66,6 +66,7 @@ impl SubCheck for Matches {
             props: c.exps.iter().map(|e| PropDesc { exp: *e, on: BTreeSet::new() }).collect(),
             panic_at: None,
             shape: String::new(),
+            yield_in_model: false,
         };
         let gm = GM::new(&g);
         let props = gm.properties();
